@@ -8,7 +8,8 @@ import (
 	"testing"
 )
 
-// TestVerifReproC17OverlappingSetMax: minimal standalone reproduction of the known finding
+// TestVerifReproC17OverlappingSetMax: minimal standalone reproduction of the finding (fixed in
+// /repo by afb5bae, kept as a regression probe: it passes on HEAD, fails on the original tree)
 // overlapping-SetMaxCount-calls-admit-more-than-every-configured-cap (not part of the check's run
 // regexp; run with -test.run TestVerifReproC17). maxConnections 5, 5 connections open, 3 more
 // dials pending; the operator sets maxConnections 2 and right away 5 again. No configured value
